@@ -554,3 +554,75 @@ def invalidated_pointers(facts, fams=None):
                             n += 1
     out.append(ob("lint.invalidated-pointer", "all:pointers-scanned", "", "discharged", "%d local pointers / iterators into objects scanned" % n, ""))
     return out
+
+
+def post_increment_semantics(facts, fams=None):
+    """`it++` returns the position BEFORE the step: the body copies *this first, advances (through the prefix form) and returns the
+    copy by value.  Returning *this after advancing makes `*it++` skip the first element and run one past the last."""
+    from astu import stmts_of, strip_all
+    fns = functions_by(facts)
+    out = []
+    for pat, fn in sorted(fns.items()):
+        if fn["name"] != "operator++" or len(fn["params"]) != 1 or fn.get("body") is None:
+            continue
+        if fams and not any(pat.startswith(f) for f in fams):
+            continue
+        st = stmts_of(fn["body"])
+        key = "%s(int):returns-previous-position" % short(fn["patq"])
+        copy_first = bool(st) and st[0].get("k") == "Decl" and len(st[0].get("vars", [])) == 1 and txt(st[0]["vars"][0].get("init")).replace(" ", "") in ("*this", "(*this)")
+        tmp = st[0]["vars"][0] if copy_first else None
+        steps = [s for s in st[1:] if s.get("k") == "Expr" and ("operator++" in txt(s["e"]) or txt(s["e"]).replace(" ", "") in ("++*this", "++(*this)"))]
+        rets = [s for s in st if s.get("k") == "Return"]
+        ret_ok = len(rets) == 1 and tmp is not None and strip_all(rets[0].get("e") or {}).get("k") in ("Ref", "Construct") and tmp["n"] in txt(rets[0].get("e"))
+        by_value = not (fn.get("ret") or "").rstrip().endswith("&")
+        ok = copy_first and len(steps) == 1 and ret_ok and by_value
+        out.append(ob("lint.post-increment", key, fn["pat"], "discharged" if ok else "violated", "copies *this, advances once, returns the copy by value" if ok else "post-increment does not return the previous position (copy of *this taken first: %s, advances: %d, returns the copy: %s, by value: %s): `*it++` skips the first element and the walk ends one past the last" % (copy_first, len(steps), ret_ok, by_value), fn["qname"]))
+    if len(out) < 5 and not fams:
+        out.append(ob("lint.post-increment", "anchor", "", "unrecognised", "only %d post-increment operators found" % len(out), ""))
+    return out
+
+
+SHORTCUT_OK = {
+    ("datasketches::theta_intersection_base", "update"): "an operand without retained entries makes the intersection empty: the table is rebuilt empty and theta / emptiness were already folded in above",
+}
+
+
+def state_writing_shortcuts(facts, records=None):
+    """merge / update / set-operation members: a branch that writes the object's fields and returns early bypasses whatever the
+    rest of the function does for every other input - the trailing normalisation (compaction loop, trimming, total-weight update,
+    publication of a count).  On the reviewed tree only one such shortcut exists (reviewed exception); a new 'fast path for an
+    empty target' has to be justified the same way."""
+    import cowrite
+    from astu import stmts_of
+    fns = functions_by(facts)
+    out = []
+    n = 0
+    for pat, fn in sorted(fns.items()):
+        if fn["name"] not in ("merge", "update", "union_with", "intersect") or not fn.get("rect") or fn.get("body") is None:
+            continue
+        if records is not None and short(fn["rect"]) not in records:
+            continue
+        n += 1
+        idx = 0
+        for s in stmts_of(fn["body"]):
+            if s.get("k") != "If":
+                continue
+            for br, nm in ((s.get("t"), "then"), (s.get("e"), "else")):
+                if br is None:
+                    continue
+                rets = []
+                walk(br, lambda x: rets.append(x) if x.get("k") == "Return" else None)
+                if not rets:
+                    continue
+                W = sorted({f for (o, f) in cowrite.direct_writes({"body": br}) if o == "this"})
+                if not W:
+                    continue
+                key = "%s::%s:shortcut#%d" % (short(fn["rect"]), fn["name"], idx)
+                idx += 1
+                why = SHORTCUT_OK.get((fn["rect"], fn["name"]))
+                if why:
+                    out.append(ob("lint.state-shortcut", key, s["loc"], "info", "reviewed exception: " + why, fn["qname"]))
+                else:
+                    out.append(ob("lint.state-shortcut", key, s["loc"], "violated", "the branch `if %s` writes %s and returns: this path leaves %s without the steps every other path runs afterwards (compaction / trimming loop, accounting of totals, publication of cached counts) - a result that depends on whether the target happened to be empty" % (txt(s["c"])[:60], ", ".join(W), fn["name"]), fn["qname"]))
+    out.append(ob("lint.state-shortcut", "all:mutators-scanned", "", "discharged", "%d merge / update members scanned for state-writing early returns" % n, ""))
+    return out
